@@ -274,6 +274,14 @@ pub fn c08(c: &mut Ctx, b: &Budget) {
                 let d = c.assign(&format!("decrypt_subject {} {}", md, KEY1));
                 let ok = c.is_ok(&d);
                 c.check("misdeclared-rejected", !ok, "misdeclared-rejected", || "content not hashing to the declared digest was accepted".into());
+                // near misses: the subject's own content under its digest with one byte changed
+                for k in [0usize, 3, 4, 5, 17, 31, c.rng.below(32)] {
+                    let mn = c.assign(&format!("misdeclare_near {} {} {} {}", subj, k, KEY1, nonce));
+                    let dn = c.assign(&format!("decrypt_subject {} {}", mn, KEY1));
+                    let okn = c.is_ok(&dn);
+                    c.check("misdeclared-rejected", !okn, "misdeclared-rejected", || format!("content declared under its digest with byte {} changed was accepted on decrypt", k));
+                    c.count("branch:near-miss-declaration");
+                }
                 // ... also as the subject of a node
                 let a = gen_assertion(c, &cfg, 0);
                 let n = c.assign(&format!("add {} {}", md, a));
@@ -524,6 +532,14 @@ pub fn c13(c: &mut Ctx, b: &Budget) {
             let ok2 = c.is_ok(&u2);
             c.check("misdeclared-rejected", !ok2, "misdeclared-rejected", || "mis-declared compressed subject was accepted".into());
         }
+        // near-miss declarations: the element's own content under its digest with a single byte changed, every byte index over time
+        for k in [0usize, 3, 4, 5, 17, 31, c.rng.below(32)] {
+            let mc = c.assign(&format!("miscompress_near {} {}", e, k));
+            let u = c.assign(&format!("uncompress {}", mc));
+            let ok = c.is_ok(&u);
+            c.check("misdeclared-rejected", !ok, "misdeclared-rejected", || format!("content declared under its digest with byte {} changed was accepted on uncompress", k));
+            c.count("branch:near-miss-declaration");
+        }
         if let Some(zz) = c.env(&z) { if zz.is_compressed() { corrupt_compressed(c, &zz); } }
         c.end();
     }
@@ -685,6 +701,19 @@ pub fn c15(c: &mut Ctx, b: &Budget) {
         c.begin("queries");
         let mut e = gen_env(c, &cfg, 3);
         if i % 3 == 0 { let n = gen_obscure(c, &e); if c.is_ok(&n) { e = n; } }
+        if i % 4 == 1 {
+            // several distinct assertions with one predicate and one object: bare, decorated (twice, differently), salted
+            let p = gen_leaf(c, &cfg); let o = gen_leaf(c, &cfg);
+            let bare = c.assign(&format!("assertion {} {}", p, o));
+            let d1 = gen_assertion(c, &cfg, 0); let d2 = gen_assertion(c, &cfg, 0);
+            let dec1 = c.assign(&format!("add {} {}", bare, d1));
+            let dec2 = c.assign(&format!("add {} {}", bare, d2));
+            let which = (c.rng.below(7) + 1) as u64;
+            for (bit, a) in [(1u64, &bare), (2, &dec1), (4, &dec2)] {
+                if which & bit != 0 { let n = c.assign(&format!("add {} {}", e, a)); if c.is_ok(&n) { e = n; } }
+            }
+            c.count("branch:same-predicate-same-object");
+        }
         let orig = match c.env(&e) { Some(x) => x, None => { c.end(); continue; } };
         observe(c, &e);
         c.obs(&format!("walk {} structure", e));
@@ -745,6 +774,36 @@ pub fn c15(c: &mut Ctx, b: &Budget) {
                 (Ok(Err(x)), 0) => { let k = crate::interp::err_kind(x); c.check("awp-none-error", k == "NonexistentPredicate", "awp-none-error", || k.clone()) }
                 (Ok(Err(x)), n) if n > 1 => { let k = crate::interp::err_kind(x); c.check("awp-ambiguous-error", k == "AmbiguousPredicate", "awp-ambiguous-error", || k.clone()) }
                 _ => c.check("awp-single", false, "awp-single", || format!("{} matches", want.len())),
+            }
+            // bulk and optional lookups against the matching assertions, decorated ones included
+            {
+                let wanto: Vec<Envelope> = want.iter().map(|a| match a.subject().case() { EnvelopeCase::Assertion(x) => x.object(), _ => unreachable!() }).collect();
+                if let Ok(objs) = guarded(|| orig.objects_for_predicate(pe.clone())) {
+                    c.check("objects-one-per-matching-assertion", objs.len() == wanto.len() && objs.iter().zip(wanto.iter()).all(|(x, y)| x.is_identical_to(y)), "objects-exact", || format!("{} objects for {} matching assertions in {}", objs.len(), wanto.len(), shape(&orig)));
+                }
+                let kind = |r: &Result<Option<Envelope>, anyhow::Error>| match r { Ok(Some(_)) => "some".to_string(), Ok(None) => "none".to_string(), Err(x) => crate::interp::err_kind(x) };
+                let expect = match want.len() { 0 => "none", 1 => "some", _ => "AmbiguousPredicate" };
+                if let Ok(r) = guarded(|| orig.optional_assertion_with_predicate(pe.clone())) {
+                    let k = kind(&r);
+                    c.check("optional-lookup-verdict", k == expect, "optional-lookup-verdict", || format!("optional_assertion_with_predicate gave {} with {} matches", k, want.len()));
+                    if let (Ok(Some(a)), 1) = (&r, want.len()) { c.check("optional-lookup-verdict", a.is_identical_to(&want[0]), "optional-lookup-verdict", || "wrong assertion".into()); }
+                }
+                if let Ok(r) = guarded(|| orig.optional_object_for_predicate(pe.clone())) {
+                    let k = kind(&r);
+                    c.check("optional-lookup-verdict", k == expect, "optional-lookup-verdict", || format!("optional_object_for_predicate gave {} with {} matches", k, want.len()));
+                    if let (Ok(Some(o)), 1) = (&r, want.len()) { c.check("optional-lookup-verdict", o.is_identical_to(&wanto[0]), "optional-lookup-verdict", || "wrong object".into()); }
+                }
+                // typed forms with a default: the default only when nothing matches, an error when several do
+                if let Ok(r) = guarded(|| orig.extract_object_for_predicate_with_default::<String>(pe.clone(), "\u{1}default".to_string())) {
+                    match (want.len(), &r) {
+                        (0, Ok(v)) => c.check("default-lookup-verdict", v == "\u{1}default", "default-lookup-verdict", || format!("no match but {:?}", v)),
+                        (0, Err(x)) => { let k = crate::interp::err_kind(x); c.check("default-lookup-verdict", false, "default-lookup-verdict", || format!("no match gave {}", k)) }
+                        (1, Ok(v)) => { let w = wanto[0].extract_subject::<String>().ok(); c.check("default-lookup-verdict", w.as_ref() == Some(v), "default-lookup-verdict", || format!("{:?} vs {:?}", v, w)) }
+                        (1, Err(_)) => { let w = wanto[0].extract_subject::<String>().is_err(); c.check("default-lookup-verdict", w, "default-lookup-verdict", || "error although the single object is a text".into()) }
+                        (_, Ok(v)) => c.check("default-lookup-verdict", false, "default-lookup-verdict", || format!("{} matches but Ok({:?})", want.len(), v)),
+                        (_, Err(x)) => { let k = crate::interp::err_kind(x); c.check("default-lookup-verdict", k == "AmbiguousPredicate", "default-lookup-verdict", || k.clone()) }
+                    }
+                }
             }
             if !decorated {
                 c.obs(&format!("ofp {} {}", e, p));
